@@ -133,7 +133,7 @@ async def _render(env, entry: str, api: int, data: dict, fault_exc, gate_tape=No
         return ("raised", exc_key(e))
 
 
-def _reference(P, ae, lc, cache_size, entry, api, data_seed, globals_mode=False):
+def _reference(P, ae, lc, cache_size, entry, api, data_seed, globals_mode=False, extra=None):
     """The task alone: fresh environment of the same configuration, fresh FIFO loop, same data."""
     zero = Tape(streams={})
     env = _make_env(P, ae, lc, cache_size, zero)
@@ -143,7 +143,9 @@ def _reference(P, ae, lc, cache_size, entry, api, data_seed, globals_mode=False)
         env.globals.update(data)
         data = {}
     try:
-        r, e = A.run_loop(loop, _render(env, entry, api, data, None))
+        # (the same template-level globals as in the run: an importer that has globals its imported template lacks gets
+        # an UNCACHED module per import - documented - so the extra name is part of the task, not noise)
+        r, e = A.run_loop(loop, _render(env, entry, api, data, None, extra=extra))
         if e is not None:
             raise e
         return r
@@ -261,7 +263,9 @@ def run(tape: Tape) -> Outcome:
         except A.SimStall as e:
             out.violate(("stall",), stall=str(e), templates=P.templates, specs=specs)
             return out
-        refs = [_reference(P, ae, lc, cache_size, entry, api, dseed, globals_mode) for entry, api, dseed in specs]
+        refs = [_reference(P, ae, lc, cache_size, entry, api, dseed, globals_mode,
+                           extra=i_ if (EXTRA_GLOBAL[0] and i_ % 2 == 1) else None)
+                for i_, (entry, api, dseed) in enumerate(specs)]
         mism = []
         for i, (got, ref) in enumerate(zip(results, refs)):
             if fkind and i == ftask and got in (("cancelled",), ("fault",)):
